@@ -582,8 +582,15 @@ fn check_state(ctx: &mut RunCtx, w: &World, owner: &str, api: &str) -> Step<()> 
                 }
             }
         }
-        let al = a.all_labels();
-        let ml = m.all_labels();
+        let group = |v: Vec<(usize, String)>| {
+            let mut g: std::collections::BTreeMap<usize, Vec<String>> = std::collections::BTreeMap::new();
+            for (k, s) in v {
+                g.entry(k).or_default().push(s);
+            }
+            g
+        };
+        let al = group(a.all_labels());
+        let ml = group(m.all_labels());
         if al != ml {
             return Some(format!("all_labels: mila {:?}, model {:?}", al, ml));
         }
@@ -811,16 +818,27 @@ fn exec(ctx: &mut RunCtx, w: &mut World, op: &Op) -> Step<()> {
         Op::DeleteLabel { a, i } => {
             let got = ctx.mila(api, || w.a.delete_label(*a, *i).map(|_| Val::Unit))?;
             let want = w.m.delete_label(*a, *i).map(|_| Val::Unit);
-            mutated_ok = cmp(ctx, owner, api, got, want, true)?;
-            rejected = !mutated_ok;
+            if want == Err(ErrKind::LabelIndex) {
+                // an index beyond the bucket: no statement says whether that is an error or a no-op;
+                // either way nothing may change (the state comparison below)
+                ctx.outcome(api, "index_beyond_bucket", if got.is_ok() { "ok" } else { "err" });
+            } else {
+                mutated_ok = cmp(ctx, owner, api, got, want, true)?;
+                rejected = !mutated_ok;
+            }
         }
         Op::Allocate { a, n, ge } => {
             probes_before_allocate(ctx, &w.m, *a, *n, *ge);
             let got = ctx.mila(api, || w.a.allocate(*a, *n, *ge).map(|_| Val::Unit))?;
             let want = w.m.allocate(*a, *n, *ge).map(|_| Val::Unit);
-            mutated_ok = cmp(ctx, owner, api, got, want, false)?;
-            rejected = !mutated_ok;
-            w.structural_since_cs |= mutated_ok;
+            if *n == 0 && want.is_ok() {
+                // inserting nothing: accepted or rejected, it changes nothing
+                ctx.outcome(api, "zero_bytes", if got.is_ok() { "ok" } else { "err" });
+            } else {
+                mutated_ok = cmp(ctx, owner, api, got, want, false)?;
+                rejected = !mutated_ok;
+                w.structural_since_cs |= mutated_ok;
+            }
         }
         Op::AllocateAtEnd { n } => {
             ctx.mila(api, || w.a.allocate_at_end(*n))?;
@@ -833,9 +851,14 @@ fn exec(ctx: &mut RunCtx, w: &mut World, op: &Op) -> Step<()> {
             probes_before_deallocate(ctx, &w.m, *a, *n);
             let got = ctx.mila(api, || w.a.deallocate(*a, *n, *ge).map(|_| Val::Unit))?;
             let want = w.m.deallocate(*a, *n).map(|_| Val::Unit);
-            mutated_ok = cmp(ctx, owner, api, got, want, false)?;
-            rejected = !mutated_ok;
-            w.structural_since_cs |= mutated_ok;
+            if *n == 0 && want.is_ok() {
+                // removing nothing: accepted or rejected, it changes nothing
+                ctx.outcome(api, "zero_bytes", if got.is_ok() { "ok" } else { "err" });
+            } else {
+                mutated_ok = cmp(ctx, owner, api, got, want, false)?;
+                rejected = !mutated_ok;
+                w.structural_since_cs |= mutated_ok;
+            }
         }
         Op::Truncate { a } => {
             let straddles = |k: &usize| *k < *a && *k + 4 > *a;
